@@ -58,7 +58,8 @@ claim("C14", "call-graph reachability (class-hierarchy resolution) + panic-site 
       "integer sum/into_or_panic ...) in functions reachable from those entry points is contained in the recorded inventory "
       "(tables/c14_sites.tsv); the validations that protect them are on every path; every rejection that was constructed in reachable "
       "code still is." + DECIDES + " Inventory rows of class U are an inherited baseline that is not individually triaged: for them the "
-      "claim is only that the set does not grow. Termination and memory bounds beyond (a) are not decided.",
+      "claim is only that the set does not grow. Termination and memory bounds beyond (a) are not decided. Two genuine panics found by (b) in the "
+      "ap-change computation were repaired in /repo (fix: commits 938a2fe, aa8782c); the i64 overflow of the legacy equation solver is a recorded known finding.",
       "trusted: rustc MIR, fact dumper; external crates are leaves modelled by the list of panicking entry points in rules/c14.py; class-U inventory rows carry no safety claim",
       "DESIGN.md section 4, C14")
 claim("C13", "Eq-completeness over MIR field reads + call-graph reachability from tracked functions + who-may-construct / who-may-call rules",
@@ -99,22 +100,30 @@ claim("C07", "must-pass-through on MIR (validation dominates constant constructi
       "(division rounding, remainder sign, conversions) is not decided.",
       "trusted: rustc MIR, fact dumper; assumes validate_literal and canonical_felt252 implement the type ranges / the field correctly",
       "DESIGN.md section 4, C07")
-claim("C09", "call-graph reachability + panic-site inventory; interprocedural typestate dataflow of the parser look-ahead over MIR",
+claim("C09", "call-graph reachability + panic-site inventory; interprocedural typestate dataflow of the parser look-ahead over MIR; abstract interpretation of the parser / lexer on an unchanged look-ahead (progress of loops and recursion)",
       "(a) The multiset of panic-capable sites reachable from the lexing, parsing and formatting entry points inside cairo-lang-parser and "
       "cairo-lang-formatter is contained in the recorded inventory (a new site is a violation; class-U rows are an inherited baseline that is "
       "not individually triaged); (b) every Parser::take::<T>() is preceded on every path, with no possibly-consuming call in between, by a "
       "test that the next terminal's kind is T::KIND (established locally, by the callers of the enclosing function, or per instantiation for "
       "type parameters) - exactly what the function asserts; every use of the second look-ahead terminal is preceded by a non-EOF test." +
-      DECIDES + " Termination of the recovery loops, stack depth, and totality of semantic/lowering diagnostics on garbage are not decided.",
-      "trusted: rustc MIR, fact dumper; calls that take &mut Parser outside the non-consuming list are assumed to consume; class-U inventory rows carry no safety claim",
+      " (c) Progress: an abstract interpreter over the MIR runs the prefix of every parser routine that executes on an unchanged look-ahead, for "
+      "every terminal kind and calling context, and shows that a list element parser never returns Ok / Err(DoNothing) without having consumed a "
+      "token, that no loop of the parser can go round without consuming (at end of file: without leaving), that no routine re-enters itself on an "
+      "unchanged look-ahead; the same over the lexer with the next character as look-ahead (every loop takes a character, match_terminal advances)." +
+      DECIDES + " Stack depth on nested input, termination of the formatter, and totality of semantic/lowering diagnostics on garbage are not decided.",
+      "trusted: rustc MIR, fact dumper; for (b) calls that take &mut Parser outside the non-consuming list are assumed to consume; for (c) the token window moves only in Parser::take_raw/advance and the character cursor only in Lexer::take (R10.1), a call that cannot be interpreted is reported; class-U inventory rows carry no safety claim",
       "DESIGN.md section 4, C09")
-claim("C10", "field-write discipline + linear-use dataflow + who-may-call rules on MIR; width/children provenance over all green-node constructors",
+claim("C10", "field-write discipline + linear-use dataflow + who-may-call rules on MIR; width/children provenance over all green-node constructors; flow-sensitive must-hand-on search for consumed green nodes",
       "No API of the lexer, parser or green tree can drop, duplicate or reorder source text: the lexer cursor fields are written only in new / "
       "take / consume_text_span with the prescribed values; every consumed span becomes token text; Parser::advance is called only by take_raw "
       "and unglue and every field of a taken terminal reaches add_trivia_to_terminal or the pending trivia; pending trivia is append-only and "
       "taken only when attached (prepended to the terminal's own leading trivia); every GreenNodeDetails::Node has width = sum over exactly "
-      "the children it stores." + DECIDES + " That the parser's choice of where to attach trivia preserves order in every recovery scenario "
-      "beyond these APIs is not decided.",
+      "the children it stores; the parser's green caches are keyed by the exact text; every green node a parser routine obtains from a "
+      "token-consuming call or receives as a parameter is handed on (to a constructor, container, parser routine, skip helper or the caller) on "
+      "every feasible path to a return; a helper that re-roots a child of an existing node carries, or proves empty, every sibling." + DECIDES +
+      " That each node is handed on once and in source order, and that the parser's choice of where to attach trivia preserves order in every "
+      "recovery scenario beyond these APIs, is not decided. Two genuine losses found by these rules were repaired in /repo (fix: commits 273025f, "
+      "a31d98e); one (`pub` before an inline macro item) is a recorded known finding.",
       "trusted: rustc MIR, fact dumper; assumes TextSpan::take slices exactly the addressed text and Vec::extend/push append in order",
       "DESIGN.md section 4, C10")
 claim("C11", "path rules on MIR: must-pass-through inside loops, control dependence on kind-equality tests, option-flag gating",
